@@ -176,23 +176,25 @@ def send_update_message(peer_ip):
                         if '.' in vau.strip().split(':')[0]:
                             ext_community.append([259, vau.strip()])
                         else:
-                            if res['peer']['capability']['remote']:
-                                four_bytes_as = res['peer']['capability']['remote'].get('four_bytes_as', False)
-                            else:
-                                return flask.jsonify({
-                                    'status': False,
-                                    'code': 'please check peer state'
-                                })
                             nums = vau.strip().split(':', 1)
-                            if int(nums[0].strip()) > 65535 and four_bytes_as:
-                                ext_community.append([515, vau.strip()])
-                            elif not four_bytes_as and int(nums[0].strip()) > 65535:
-                                return flask.jsonify({
-                                    'status': False,
-                                    'code': 'peer not support as num of greater than 65535'
-                                })
-                            else:
+                            if int(nums[0].strip()) <= 65535:
                                 ext_community.append([3, vau.strip()])
+                            else:
+                                # 4 byte, need to check whether four_bytes_as is true in capability
+                                if res['peer']['capability']['remote']:
+                                    four_bytes_as = res['peer']['capability']['remote'].get('four_bytes_as', False)
+                                else:
+                                    return flask.jsonify({
+                                        'status': False,
+                                        'code': 'please check peer state'
+                                    })
+                                if four_bytes_as:
+                                    ext_community.append([515, vau.strip()])
+                                else:
+                                    return flask.jsonify({
+                                        'status': False,
+                                        'code': 'peer not support as num of greater than 65535'
+                                    })
                 elif key.strip().lower() == 'redirect-nexthop':
                     values = value.strip().split(':', 1)
                     ext_community.append([2048, values[0], int(values[1])])
@@ -352,23 +354,25 @@ def json_to_bin(peer_ip):
                         if '.' in vau.strip().split(':')[0]:
                             ext_community.append([259, vau.strip()])
                         else:
-                            if res['peer']['capability']['remote']:
-                                four_bytes_as = res['peer']['capability']['remote'].get('four_bytes_as', False)
-                            else:
-                                return flask.jsonify({
-                                    'status': False,
-                                    'code': 'please check peer state'
-                                })
                             nums = vau.strip().split(':', 1)
-                            if int(nums[0].strip()) > 65535 and four_bytes_as:
-                                ext_community.append([515, vau.strip()])
-                            elif not four_bytes_as and int(nums[0].strip()) > 65535:
-                                return flask.jsonify({
-                                    'status': False,
-                                    'code': 'peer not support as num of greater than 65535'
-                                })
-                            else:
+                            if int(nums[0].strip()) <= 65535:
                                 ext_community.append([3, vau.strip()])
+                            else:
+                                # 4 byte, need to check whether four_bytes_as is true in capability
+                                if res['peer']['capability']['remote']:
+                                    four_bytes_as = res['peer']['capability']['remote'].get('four_bytes_as', False)
+                                else:
+                                    return flask.jsonify({
+                                        'status': False,
+                                        'code': 'please check peer state'
+                                    })
+                                if four_bytes_as:
+                                    ext_community.append([515, vau.strip()])
+                                else:
+                                    return flask.jsonify({
+                                        'status': False,
+                                        'code': 'peer not support as num of greater than 65535'
+                                    })
                 elif key.strip().lower() == 'redirect-vrf':
                     ext_community.append([32776, value.strip()])
                 elif key.strip().lower() == 'redirect-nexthop':
